@@ -119,22 +119,73 @@ func needsFunctionHold(info *types.Info, n ast.Node) (hold bool, spawns bool) {
 	return hold, spawns
 }
 
+// state shared by all instrumented modules
+var (
+	siteNames        []string
+	nMaps            int
+	nMapsSkipped     int
+	nAtomicFuncs     int
+	nLocks           int
+	spawnsGoroutines bool
+	kv               int
+)
+
 func main() {
-	if len(os.Args) != 2 {
-		fatal("usage: instrument <repo copy>")
+	if len(os.Args) != 2 && len(os.Args) != 4 {
+		fatal("usage: instrument <repo copy> [<import path of a replaced dependency> <file,file,...>]")
 	}
 	root, _ := filepath.Abs(os.Args[1])
 	modPath := strings.TrimSpace(goList(root, "-m"))
+	hookPath := modPath + "/verifsim"
+	instrumentModule(root, hookPath, nil, "")
+	n1 := len(siteNames)
+	extra := ""
+	if len(os.Args) == 4 {
+		// selected files of a dependency (a writable copy of the module, wired in with a replace directive): its
+		// statements become yield points too, so interleavings INSIDE those library calls are explored
+		// os.Args[2] is the import path of the dependency's root package; it is listed and type-checked from the
+		// repository copy, i.e. under the repository's own build list (its replace directive points at the copy)
+		dep := os.Args[2]
+		only := map[string]bool{}
+		for _, f := range strings.Split(os.Args[3], ",") {
+			only[f] = true
+		}
+		instrumentPkgs(root, dep, hookPath, only, dep+"/")
+		extra = fmt.Sprintf(" + %d sites in %s (%s)", len(siteNames)-n1, dep, os.Args[3])
+	}
+	// site table
+	var sb strings.Builder
+	sb.WriteString("package verifsim\n\nfunc init() {\n")
+	fmt.Fprintf(&sb, "\tNSites = %d\n\tForeignGoroutines = %v\n\tSiteNames = []string{\n", len(siteNames), spawnsGoroutines)
+	for _, s := range siteNames {
+		fmt.Fprintf(&sb, "\t\t%q,\n", s)
+	}
+	sb.WriteString("\t}\n}\n")
+	if err := os.WriteFile(filepath.Join(root, "verifsim", "verifsim_sites.go"), []byte(sb.String()), 0o644); err != nil {
+		fatal("%v", err)
+	}
+	fmt.Printf("instrumented %s: %d yield sites%s, %d map iterations routed through the seam (%d kept: body mutates the map), %d functions held atomic (go/chan/select/WaitGroup/Cond), %d lock/once sections bracketed\n",
+		modPath, n1, extra, nMaps, nMapsSkipped, nAtomicFuncs, nLocks)
+}
+
+// instrumentModule rewrites the packages of the module rooted at root. only != nil restricts it to the root
+// package's files with those base names.
+func instrumentModule(root, hookPath string, only map[string]bool, relPrefix string) {
+	instrumentPkgs(root, "./...", hookPath, only, relPrefix)
+}
+
+// instrumentPkgs: `pattern` is resolved by go list with root as working directory.
+func instrumentPkgs(root, pattern, hookPath string, only map[string]bool, relPrefix string) {
 	// export data of every dependency (built on demand, cached)
 	exports := map[string]string{}
-	for _, l := range strings.Split(goList(root, "-export", "-deps", "-f", "{{.ImportPath}}\t{{.Export}}", "./..."), "\n") {
+	for _, l := range strings.Split(goList(root, "-export", "-deps", "-f", "{{.ImportPath}}\t{{.Export}}", pattern), "\n") {
 		f := strings.Split(l, "\t")
 		if len(f) == 2 && f[1] != "" {
 			exports[f[0]] = f[1]
 		}
 	}
 	var pkgs []pkgInfo
-	for _, l := range strings.Split(goList(root, "-f", "{{.ImportPath}}\t{{.Dir}}\t{{join .GoFiles \",\"}}", "./..."), "\n") {
+	for _, l := range strings.Split(goList(root, "-f", "{{.ImportPath}}\t{{.Dir}}\t{{join .GoFiles \",\"}}", pattern), "\n") {
 		f := strings.Split(l, "\t")
 		if len(f) != 3 || strings.HasSuffix(f[0], "/verifsim") {
 			continue
@@ -150,10 +201,6 @@ func main() {
 		}
 		return os.Open(e)
 	})
-	var siteNames []string
-	nMaps, nMapsSkipped, nAtomicFuncs, nLocks := 0, 0, 0, 0
-	spawnsGoroutines := false
-	kv := 0
 	for _, p := range pkgs {
 		var files []*ast.File
 		var names []string
@@ -177,6 +224,9 @@ func main() {
 			if strings.HasSuffix(base, ".pb.go") || strings.HasPrefix(base, "verif_") {
 				continue
 			}
+			if only != nil && !only[base] {
+				continue
+			}
 			src, err := os.ReadFile(full)
 			if err != nil {
 				fatal("%v", err)
@@ -188,7 +238,11 @@ func main() {
 				seq++
 			}
 			offOf := func(pos token.Pos) int { return fset.Position(pos).Offset }
-			rel, _ := filepath.Rel(root, full)
+			rel, err := filepath.Rel(root, full)
+			if err != nil || strings.HasPrefix(rel, "..") {
+				rel = filepath.Base(full)
+			}
+			rel = relPrefix + rel
 			// function-level holds (go/chan/select/WaitGroup/Cond/TryLock) and statement-level holds (Lock..Unlock, Once.Do)
 			skip := map[ast.Node]bool{}
 			for _, d := range af.Decls {
@@ -350,7 +404,7 @@ func main() {
 				continue
 			}
 			// import on the package clause line (keeps line numbers)
-			add(offOf(af.Name.End()), 0, `; import verifsim "`+modPath+`/verifsim"`)
+			add(offOf(af.Name.End()), 0, `; import verifsim "`+hookPath+`"`)
 			sort.SliceStable(edits, func(i, j int) bool {
 				if edits[i].off != edits[j].off {
 					return edits[i].off > edits[j].off
@@ -366,17 +420,4 @@ func main() {
 			}
 		}
 	}
-	// site table
-	var sb strings.Builder
-	sb.WriteString("package verifsim\n\nfunc init() {\n")
-	fmt.Fprintf(&sb, "\tNSites = %d\n\tForeignGoroutines = %v\n\tSiteNames = []string{\n", len(siteNames), spawnsGoroutines)
-	for _, s := range siteNames {
-		fmt.Fprintf(&sb, "\t\t%q,\n", s)
-	}
-	sb.WriteString("\t}\n}\n")
-	if err := os.WriteFile(filepath.Join(root, "verifsim", "verifsim_sites.go"), []byte(sb.String()), 0o644); err != nil {
-		fatal("%v", err)
-	}
-	fmt.Printf("instrumented %s: %d yield sites, %d map iterations routed through the seam (%d kept: body mutates the map), %d functions held atomic (go/chan/select/WaitGroup/Cond), %d lock/once sections bracketed\n",
-		modPath, len(siteNames), nMaps, nMapsSkipped, nAtomicFuncs, nLocks)
 }
